@@ -526,4 +526,236 @@ theorem readResources_ok (v : Vtf) (minor sheetVer lowLen : Nat) (H tail file : 
     rw [hblocks]
     simp only [List.find?_eq_none.mpr hnoSheet, hempty, List.map_nil]
 
+/-! ## the fixed header and the whole file -/
+
+def hdrWF (v : Vtf) (minor : Nat) : Bool :=
+  decide (minor ≤ 5) && decide (v.width < 65536) && decide (v.height < 65536) &&
+  decide (v.flags < 256 ^ 4) && decide (v.frameCount < 65536) && decide (v.firstFrame < 65536) &&
+  v.refl.length == 12 && v.bump.length == 4 && decide (v.mipCount < 256) &&
+  decide (v.low.w < 256) && decide (v.low.h < 256) && decide (v.depth < 65536) &&
+  decide (v.fmt ≤ 29) && decide (v.fmt ≠ 27) && decide (v.lowFmt ≤ 29)
+
+/-- **Well-formedness of what is written** (decidable): every header field fits its width, the
+float fields have their 12 / 4 bytes, the formats exist, resource ids are three bytes, distinct and
+not reserved, flags are bytes, inline values / block lengths / file offsets fit 32 bits, the sheet
+has at most 64 sequences with distinct numbers below 64 and frames of 4 + 64 bytes. -/
+def fileWF (v : Vtf) (minor sheetVer lowLen : Nat) : Bool :=
+  hdrWF v minor && resPartWF v minor sheetVer lowLen
+
+def viewDepth (v : Vtf) (minor : Nat) : Nat :=
+  if minor ≥ 2 then (if v.depth = 0 then 1 else v.depth) else 1
+
+/-- What `VTF.read` sees in the file written for `v`: the header fields as they are, resources with
+the storage-kind bit normalised, sheet frames as the sheet version stores them, and the frame table
+laid out from the header counts after the thumbnail (`lowLen` bytes). -/
+def viewOf (v : Vtf) (minor sheetVer lowLen : Nat) : View :=
+  { verMinor := minor, headerSize := headerSize v minor, width := v.width, height := v.height,
+    flags := v.flags, frameCount := v.frameCount, firstFrame := v.firstFrame, refl := v.refl,
+    bump := v.bump, fmt := v.fmt, mipCount := v.mipCount, lowFmt := v.lowFmt, lowW := v.low.w,
+    lowH := v.low.h, depth := viewDepth v minor,
+    res := if minor ≥ 3 then v.res.map normRes else [],
+    sheet := if minor ≥ 3 then v.sheet.map (normSeq sheetVer) else [],
+    lowOff := if v.lowFmt ≠ fmtNone then some (lowOff v minor sheetVer) else none,
+    frames := layoutFrom (frameSize (fmtOf v.fmt)) (readerDims v.width v.height)
+      (fileKeys v.mipCount v.frameCount (depthSeq v.flags minor (viewDepth v minor)))
+      (lowOff v minor sheetVer + lowLen),
+    headerOnly := decide (v.fmt = 24 ∨ v.fmt = 25) }
+
+/-- the header fields after signature and version. -/
+def hdrRest (v : Vtf) (minor : Nat) (asw : Bool) : List (List Nat) :=
+  [le 4 (headerSize v minor), le 2 v.width, le 2 v.height,
+   le 4 v.flags, le 2 v.frameCount, le 2 v.firstFrame, zeros 4, v.refl, zeros 4, v.bump,
+   le 4 (binValue v.fmt asw), le 1 v.mipCount, le 4 (binValue v.lowFmt asw), le 1 v.low.w,
+   le 1 v.low.h] ++ (if minor ≥ 2 then [le 2 v.depth] else [])
+
+theorem hdrFields_eq (v : Vtf) (minor : Nat) (asw : Bool) :
+    hdrFields v minor asw = [86, 84, 70, 0] :: le 4 7 :: le 4 minor :: hdrRest v minor asw := rfl
+
+theorem format_facts : ∀ f, f ≤ 29 → ∀ asw : Bool,
+    formatOrder (binValue f asw) = some f ∧ binValue f asw < 256 ^ 4 := by
+  decide +kernel
+
+theorem hdr_length (v : Vtf) (minor : Nat) (asw : Bool) (hr : v.refl.length = 12)
+    (hb : v.bump.length = 4) : (hdrFields v minor asw).flatten.length = preLen minor := by
+  simp only [hdrFields, preLen]
+  split <;> simp [hr, hb]
+
+theorem readFile_fileBytes (v : Vtf) (minor sheetVer : Nat) (asw : Bool) (lowBytes : List Nat)
+    (blocks : List (List Nat)) (hwf : fileWF v minor sheetVer lowBytes.length = true)
+    (hlow : minor < 3 → lowBytes.length = frameSize (fmtOf v.lowFmt) v.low.w v.low.h) :
+    readFile (fileBytes v minor sheetVer asw lowBytes blocks)
+      = .ok (viewOf v minor sheetVer lowBytes.length) := by
+  have hwf0 := hwf
+  simp only [fileWF, hdrWF, Bool.and_eq_true, decide_eq_true_eq, beq_iff_eq] at hwf
+  obtain ⟨⟨⟨⟨⟨⟨⟨⟨⟨⟨⟨⟨⟨⟨⟨hminor, hw⟩, hh⟩, hfl⟩, hfc⟩, hff⟩, hrl⟩, hbl⟩, hmc⟩, hlw⟩, hlh⟩, hdep⟩, hfmt⟩,
+    hfmt27⟩, hlfmt⟩, hresWF⟩ := hwf
+  have hres' := hresWF
+  simp only [resPartWF, Bool.and_eq_true, decide_eq_true_eq] at hres'
+  have hoff : lowOff v minor sheetVer + lowBytes.length < 256 ^ 4 := hres'.1.2
+  have hhs : headerSize v minor < 256 ^ 4 := by
+    have : headerSize v minor ≤ lowOff v minor sheetVer := by simp [lowOff]
+    omega
+  set T := resTable v minor sheetVer lowBytes.length ++
+    (dataBlocks v minor sheetVer ++ (lowBytes ++ blocks.flatten)) with hT
+  have hfile : fileBytes v minor sheetVer asw lowBytes blocks
+      = (hdrFields v minor asw).flatten ++ T := by
+    simp [fileBytes, hT, List.append_assoc]
+  have hfile2 : fileBytes v minor sheetVer asw lowBytes blocks
+      = [[86, 84, 70, 0], le 4 7, le 4 minor].flatten ++ ((hdrRest v minor asw).flatten ++ T) := by
+    rw [hfile, hdrFields_eq]; simp [List.append_assoc]
+  have hs0 : splitW [4, 4, 4] (fileBytes v minor sheetVer asw lowBytes blocks)
+      = some ([[86, 84, 70, 0], le 4 7, le 4 minor], (hdrRest v minor asw).flatten ++ T) :=
+    splitW_of _ _ _ _ (by simp) hfile2
+  have hs1 : splitW (hdrWidths minor) ((hdrRest v minor asw).flatten ++ T)
+      = some (hdrRest v minor asw, T) := by
+    apply splitW_of _ _ _ _ _ rfl
+    simp only [hdrWidths, hdrRest]
+    split <;> simp [hrl, hbl]
+  have F1 := format_facts v.fmt hfmt asw
+  have F2 := format_facts v.lowFmt hlfmt asw
+  unfold readFile
+  simp only [hs0]
+  rw [leDecode_le' 4 7 (by decide), leDecode_le' 4 minor (by omega)]
+  simp only [ne_eq, not_true_eq_false, if_false, hs1]
+  -- the body
+  have hrr : (if minor ≥ 3 then readResources (fileBytes v minor sheetVer asw lowBytes blocks) T
+      else pure ([], [], some (headerSize v minor),
+        some (headerSize v minor + frameSize (fmtOf v.lowFmt) v.low.w v.low.h)))
+      = .ok (if minor ≥ 3 then v.res.map normRes else [],
+             if minor ≥ 3 then v.sheet.map (normSeq sheetVer) else [],
+             some (lowOff v minor sheetVer), some (lowOff v minor sheetVer + lowBytes.length)) := by
+    by_cases hm : minor ≥ 3
+    · simp only [hm, if_true]
+      have hTT : T = resTable v minor sheetVer lowBytes.length ++
+          ((resBlocks v.res).flatten ++ (sheetBlock v minor sheetVer ++ (lowBytes ++ blocks.flatten))) := by
+        simp [hT, dataBlocks, hm, List.append_assoc]
+      rw [hTT]
+      exact readResources_ok v minor sheetVer lowBytes.length _ _ _ hm
+        (hdr_length v minor asw hrl hbl) (by rw [hfile, hTT]) hresWF
+    · have hm' : minor < 3 := by omega
+      have hlo : lowOff v minor sheetVer = headerSize v minor := by
+        simp [lowOff, dataBlocks, sheetBlock, hm]
+      simp only [hm, if_false, hlo, hlow hm']
+      rfl
+  by_cases h2 : minor ≥ 2
+  · have hR : hdrRest v minor asw = [le 4 (headerSize v minor), le 2 v.width, le 2 v.height,
+        le 4 v.flags, le 2 v.frameCount, le 2 v.firstFrame, zeros 4, v.refl, zeros 4, v.bump,
+        le 4 (binValue v.fmt asw), le 1 v.mipCount, le 4 (binValue v.lowFmt asw), le 1 v.low.w,
+        le 1 v.low.h, le 2 v.depth] := by simp [hdrRest, h2]
+    rw [hR]
+    simp only [readBody]
+    rw [leDecode_le' 4 _ F1.2, leDecode_le' 4 _ F2.2, F1.1, F2.1]
+    simp only [leDecode_le' 4 _ hhs, leDecode_le' 2 _ hw, leDecode_le' 2 _ hh, leDecode_le' 4 _ hfl,
+      leDecode_le' 2 _ hfc, leDecode_le' 2 _ hff, leDecode_le' 1 _ hmc, leDecode_le' 1 _ hlw,
+      leDecode_le' 1 _ hlh, leDecode_le' 2 _ hdep, fmtNone, hfmt27, if_false, hrr]
+    by_cases hl27 : v.lowFmt = 27
+    · simp [viewOf, viewDepth, h2, hl27, fmtNone, pure, Except.pure, hminor]
+    · simp [viewOf, viewDepth, h2, hl27, fmtNone, pure, Except.pure, hminor]
+  · have hR : hdrRest v minor asw = [le 4 (headerSize v minor), le 2 v.width, le 2 v.height,
+        le 4 v.flags, le 2 v.frameCount, le 2 v.firstFrame, zeros 4, v.refl, zeros 4, v.bump,
+        le 4 (binValue v.fmt asw), le 1 v.mipCount, le 4 (binValue v.lowFmt asw), le 1 v.low.w,
+        le 1 v.low.h] := by simp [hdrRest, h2]
+    rw [hR]
+    simp only [readBody]
+    rw [leDecode_le' 4 _ F1.2, leDecode_le' 4 _ F2.2, F1.1, F2.1]
+    simp only [leDecode_le' 4 _ hhs, leDecode_le' 2 _ hw, leDecode_le' 2 _ hh, leDecode_le' 4 _ hfl,
+      leDecode_le' 2 _ hfc, leDecode_le' 2 _ hff, leDecode_le' 1 _ hmc, leDecode_le' 1 _ hlw,
+      leDecode_le' 1 _ hlh, fmtNone, hfmt27, if_false, hrr]
+    by_cases hl27 : v.lowFmt = 27
+    · simp [viewOf, viewDepth, h2, hl27, fmtNone, pure, Except.pure, hminor]
+    · simp [viewOf, viewDepth, h2, hl27, fmtNone, pure, Except.pure, hminor]
+
+/-! ## the image data -/
+
+theorem mapM_ok_forall2 {α β : Type} (f : α → Except Err β) :
+    ∀ (l : List α) (r : List β), l.mapM f = .ok r → List.Forall₂ (fun a b => f a = .ok b) l r := by
+  intro l
+  induction l with
+  | nil => intro r h; simp [pure, Except.pure] at h; subst h; exact .nil
+  | cons a l ih =>
+    intro r h
+    rw [List.mapM_cons] at h
+    cases ha : f a with
+    | error e => simp [ha, bind, Except.bind] at h
+    | ok b =>
+      cases hl : l.mapM f with
+      | error e => simp [ha, hl, bind, Except.bind] at h
+      | ok bs =>
+        simp [ha, hl, bind, Except.bind, pure, Except.pure] at h
+        subst h
+        exact .cons ha (ih bs hl)
+
+theorem chunksAux_length (n : Nat) : ∀ (k : Nat) (l : List Nat), (chunksAux n k l).length = k := by
+  intro k
+  induction k with
+  | zero => intro _; rfl
+  | succ k ih => intro l; simp [chunksAux, ih]
+
+theorem saveImg_length (c : Codec) (px : List Nat) :
+    (saveImg c px).length = c.save.length * (px.length / 4) := by
+  unfold saveImg
+  rw [length_flatMap_const c.save.length _ _ (fun q _ => by simp [saveF])]
+  simp [chunks, chunksAux_length]
+
+theorem codec_size_facts : ∀ i, i < 30 → (codecOf i).hasSave = true →
+    (fmtOf i).size = 8 * (codecOf i).save.length ∧ (fmtOf i).compressed = false := by
+  decide +kernel
+
+theorem codecOf_default (i : Nat) (h : ¬ i < 30) : (codecOf i).hasSave = false := by
+  have : codecs.length = 30 := by decide
+  simp [codecOf, List.getD_eq_getElem?_getD, List.getElem?_eq_none (by omega : codecs.length ≤ i)]
+  rfl
+
+theorem encodeFrame_ok (fmt : Nat) (fr : FrameM) (bs : List Nat) (h : encodeFrame fmt fr = .ok bs) :
+    bs = saveImg (codecOf fmt) (fr.data.getD (blank fr.w fr.h)) ∧
+    (fr.data.getD (blank fr.w fr.h)).length = 4 * fr.w * fr.h ∧
+    (codecOf fmt).hasSave = true ∧ bs.length = frameSize (fmtOf fmt) fr.w fr.h := by
+  unfold encodeFrame at h
+  simp only [] at h
+  split at h
+  · simp [throw, throwThe, MonadExceptOf.throw] at h
+  · rename_i hlen
+    split at h
+    · simp [throw, throwThe, MonadExceptOf.throw] at h
+    · rename_i hs
+      simp only [Bool.not_eq_true, Bool.not_eq_false'] at hs
+      simp only [pure, Except.pure, Except.ok.injEq] at h
+      have hlen' : (fr.data.getD (blank fr.w fr.h)).length = 4 * fr.w * fr.h := by
+        simpa using hlen
+      have hi : fmt < 30 := by
+        by_contra hc
+        rw [codecOf_default fmt hc] at hs
+        exact absurd hs (by decide)
+      have F := codec_size_facts fmt hi hs
+      refine ⟨h.symm, hlen', hs, ?_⟩
+      rw [← h, saveImg_length, hlen', frameSize, F.2]
+      simp only [Bool.false_eq_true, if_false, F.1]
+      rw [show 4 * fr.w * fr.h / 4 = fr.w * fr.h by
+        rw [Nat.mul_assoc, Nat.mul_div_cancel_left _ (by decide : 0 < 4)]]
+      rw [show 8 * (codecOf fmt).save.length * fr.w * fr.h = 8 * ((codecOf fmt).save.length * (fr.w * fr.h)) by ring,
+        Nat.mul_div_cancel_left _ (by decide : 0 < 8)]
+
+/-- the blocks of a list laid out one after the other are found at the running offsets. -/
+theorem layout_slices (fsz : Nat → Nat → Nat) (dims : Nat → Nat × Nat) :
+    ∀ (ks : List Key) (bs : List (List Nat)) (pre post file : List Nat),
+      List.Forall₂ (fun k b => b.length = fsz (dims k.2.2).1 (dims k.2.2).2) ks bs →
+      file = pre ++ (bs.flatten ++ post) →
+      List.Forall₂ (fun (e : Key × Nat × Nat × Nat) b => slice file e.2.2.2 (fsz e.2.1 e.2.2.1) = b)
+        (layoutFrom fsz dims ks pre.length) bs := by
+  intro ks
+  induction ks with
+  | nil => intro bs pre post file h _; cases h; exact .nil
+  | cons k ks ih =>
+    intro bs pre post file h hfile
+    cases h with
+    | cons hb hrest =>
+      rename_i b bs'
+      simp only [layoutFrom]
+      refine .cons ?_ ?_
+      · simp only []
+        rw [hfile, ← hb]
+        simpa [List.append_assoc] using slice_mid' pre b (bs'.flatten ++ post) b.length rfl
+      · have := ih bs' (pre ++ b) post file hrest (by rw [hfile]; simp [List.append_assoc])
+        simpa [hb] using this
+
 end C15
